@@ -163,11 +163,8 @@ func (c *Ctx) execStmt(env *Env, s ast.Stmt, st *State) []*State {
 		c.unsupported("%s: branch %s", c.e.pos(x.Pos()), x.Tok)
 		return nil
 	case *ast.DeferStmt:
-		fr := c.frame()
-		fr.defers = append(fr.defers, deferredCall{call: x.Call, env: env})
-		// record on the state which defers are active: approximated per frame (defers
-		// in this code base are unconditional and at the top of the function)
-		st.ghost[fmt.Sprintf("defer:%p", x)] = Val{T: "true"}
+		// deferred calls are path-sensitive: only those registered on this path run at its return
+		st.defers = append(st.defers, deferredCall{call: x.Call, env: env, frame: c.frame()})
 		return alive(st)
 	case *ast.GoStmt:
 		c.trust("go statements: spawned goroutine bodies are not part of the spawner's contract")
@@ -718,6 +715,14 @@ func (c *Ctx) havocLoopTargets(env *Env, st *State, nodes []ast.Node) {
 			st.heap[k] = c.fresh("H'"+k, fmt.Sprintf("(Array Int %s)", c.heapSorts[k]))
 		}
 	}
+	// a loop that receives from channels extends the ghost receive history
+	if containsRecv(nodes) {
+		if v, ok := st.ghost["recv_"]; ok && v.Ty != nil {
+			st.ghost["recv_"] = env.havoc(st, "recv_", v.Ty)
+		} else if et := c.recvElemType(env, nodes); et != nil {
+			st.ghost["recv_"] = env.havoc(st, "recv_", types.NewSlice(et))
+		}
+	}
 	// generator bodies: a loop that yields changes the ghost output sequences
 	if _, isGen := st.ghost["stopped_"]; isGen && containsYield(env, nodes) {
 		for _, k := range []string{"out_", "out2_"} {
@@ -751,6 +756,13 @@ func (c *Ctx) loopSpec(env *Env) (*LoopSpec, int) {
 
 func (c *Ctx) invEnv(env *Env, pos token.Pos, extra map[string]Val) *Env {
 	ie := &Env{c: c, fn: env.fn, pkg: env.pkg, contract: true, scopePos: pos, bound: map[string]Val{}, old: c.entry, tsubst: env.tsubst, noSafety: true}
+	// indices and collections of the enclosing range loops: idx<N>_, coll<N>_
+	for n, v := range c.loopIdx {
+		ie.bound[fmt.Sprintf("idx%d_", n)] = v
+	}
+	for n, v := range c.loopColl {
+		ie.bound[fmt.Sprintf("coll%d_", n)] = v
+	}
 	for k, v := range extra {
 		ie.bound[k] = v
 	}
@@ -831,7 +843,7 @@ func (c *Ctx) execFor(env *Env, x *ast.ForStmt, st *State, label string) []*Stat
 }
 
 func (c *Ctx) addCover(st *State, name string, pos token.Pos) {
-	if c.inlineTag != "" || c.noSafety {
+	if c.inlineTag != "" {
 		return
 	}
 	o := &Obligation{Name: "cover." + c.fi.Key + "/" + name, Kind: "cover", Func: c.fi.Key, Assume: untag(st.pc), Goal: "false", Decls: c.decls, Where: c.e.pos(pos), Cover: true, Props: c.props}
@@ -947,7 +959,13 @@ func (c *Ctx) execRange(env *Env, x *ast.RangeStmt, st *State, label string) []*
 		}
 	}
 	c.addCover(body, fmt.Sprintf("loop%d/body", n), x.Pos())
+	if c.loopIdx == nil {
+		c.loopIdx, c.loopColl = map[int]Val{}, map[int]Val{}
+	}
+	c.loopIdx[n], c.loopColl[n] = i, coll
 	ends := c.execBlock(env, x.Body.List, []*State{body})
+	delete(c.loopIdx, n)
+	delete(c.loopColl, n)
 	ends = append(ends, lc.continues...)
 	fr.loops = fr.loops[:len(fr.loops)-1]
 	next := Val{T: app("+", i.T, "1"), Ty: tInt}
@@ -1158,4 +1176,36 @@ func (c *Ctx) pathStableIn(env *Env, e ast.Expr, vars map[types.Object]bool, fie
 		return c.pathStableIn(env, x.X, vars, fields)
 	}
 	return false
+}
+
+func containsRecv(nodes []ast.Node) bool {
+	found := false
+	for _, n := range nodes {
+		if n == nil {
+			continue
+		}
+		ast.Inspect(n, func(nd ast.Node) bool {
+			if u, ok := nd.(*ast.UnaryExpr); ok && u.Op == token.ARROW {
+				found = true
+			}
+			return true
+		})
+	}
+	return found
+}
+
+func (c *Ctx) recvElemType(env *Env, nodes []ast.Node) types.Type {
+	var t types.Type
+	for _, n := range nodes {
+		if n == nil {
+			continue
+		}
+		ast.Inspect(n, func(nd ast.Node) bool {
+			if u, ok := nd.(*ast.UnaryExpr); ok && u.Op == token.ARROW && t == nil {
+				t = env.pkg.info.TypeOf(u)
+			}
+			return true
+		})
+	}
+	return t
 }
